@@ -375,6 +375,26 @@ theorem feedDepth_le (nm : Names) (h0 : nm.outermostOnly = false) (hE : nm.scEli
   have := hr.2
   omega
 
+/-! ### what `__getstate__` leaves in the dict -/
+
+theorem refs_flat : Val.flat.refs = 0 := rfl
+theorem refs_self : Val.self.refs = 0 := rfl
+theorem refs_tree (k : Nat) : (Val.tree k).refs = k := rfl
+
+theorem ofRefs_refs (k : Nat) : (Val.ofRefs k .self).refs = k ∧ (Val.ofRefs k).refs = k := by
+  unfold Val.ofRefs
+  constructor <;> split <;> simp_all [Val.refs]
+
+/-- the state dict references tree objects exactly through the root's own links (when linked and not dropped) and
+    through whatever the parse left on the three parser stacks (`tagStack` and `currentTag` both see the tag stack) -/
+theorem stateRefs_eq (cfg : Cfg) (lk : Bool) (ps : PState) :
+    stateRefs cfg lk ps = (if lk && !cfg.dropLinks then 1 else 0) + 2 * ps.stack.length + ps.pre.length + ps.sc.length := by
+  have h1 := (ofRefs_refs ps.stack.length).1
+  have h2 := (ofRefs_refs ps.pre.length).2
+  have h3 := (ofRefs_refs ps.sc.length).2
+  cases hd : cfg.dropLinks <;> cases lk <;>
+    simp [stateRefs, soupDict, getstateImpl, dictRefs, hd, refs_flat, refs_self, refs_tree, h1, h2, h3] <;> omega
+
 /-! ### after the parse: nothing is left on the parser's stacks -/
 
 theorem closeAll_spec (nm : Names) (hE : nm.scElif = false) (deep : Nat) (fuel : Nat) (s : PState) (h : Inv nm s)
